@@ -22,6 +22,7 @@ Obl(e) ==
     [] e.op = "ONew" -> <<>>
     [] e.op = "Register" -> <<>>
     [] e.op = "Evaluate" -> <<
+         <<"quiet", e.panic = "">>,        \* (no panic, and the issuer answered within the driver's time limit)
          <<"create-ok", e.created>>,
          <<"wire-size-depends-on-blocks-only", e.created => e.size = WireSize(Len(e.name))>>,
          <<"served-iff-registered", e.created => (e.served <=> Served(e.name))>> >>
